@@ -237,6 +237,8 @@ pub fn eval(c: &Case, obs: &mut Obs) -> Result<(), String> {
 }
 
 fn eval_inner(c: &Case, obs: &mut Obs) -> Result<(), String> {
+    // allocations get exactly the alignment they ask for (see alloc_track)
+    let _exact = crate::alloc_track::exact_align();
     // both ways of obtaining an empty builder (chosen by the case content)
     let mut b = if c.calls.iter().map(|x| x.key as u64 + x.n as u64).sum::<u64>() % 2 == 1 { m::Builder::default() } else { m::Builder::new() };
     // model: slot -> images
